@@ -183,8 +183,9 @@ def parseUintDec (s : Bytes) (bits : Nat) : Option Nat :=
     let v := s.foldl (fun acc b => acc * 10 + (b.toNat - 48)) 0
     if v < 2 ^ bits then some v else none
 
-def natToDec (n : Nat) : Bytes := (toString n).toUTF8.toList
+/-- decimal digits (`strconv.Itoa`, `%d`, `%v` of an integer) -/
+def natToDec (n : Nat) : Bytes := (Nat.toDigits 10 n).map (fun c => UInt8.ofNat c.toNat)
 
-def intToDec (i : Int) : Bytes := (toString i).toUTF8.toList
+def intToDec (i : Int) : Bytes := if i < 0 then 45 :: natToDec i.natAbs else natToDec i.toNat
 
 end SmtpV.Text
